@@ -120,8 +120,17 @@ def gen_system(rng, family):
     if family == "mix":
         ns = rng.randint(2, 3)
         nums = rng.sample(range(1, 9), ns)
-        for n in nums:
-            S["solutions"].append(gen_solution(rng, n, True))
+        temps = rng.sample([10.0, 25.0, 40.0, 60.0, 80.0], ns)
+        waters = rng.sample([0.1, 0.5, 1.0, 1.25, 2.0, 4.0], ns)
+        press = rng.sample([1.0, 5.0, 20.0, 50.0], ns) if rng.random() < 0.4 else [None] * ns
+        for n, tc, w, pa in zip(nums, temps, waters, press):
+            s = gen_solution(rng, n, True)
+            # end members of unequal temperature AND unequal water mass (and sometimes pressure): the weights of the
+            # intensive properties of the mixture (fraction x water) then differ from the bare fractions
+            s["temp"], s["water"] = tc, w
+            if pa:
+                s["pressure"] = pa
+            S["solutions"].append(s)
         fr = [rnd_round(rng, rng.uniform(0.1, 1.5)) for _ in nums]
         S["blocks"].append({"kind": "MIX", "n": rng.randint(1, 5), "items": [[n, f] for n, f in zip(nums, fr)]})
         S["use"] = [("mix", S["blocks"][0]["n"])]
@@ -182,7 +191,7 @@ def gen_system(rng, family):
 
 def base_variant():
     return {"units": {}, "defunits": {}, "k": 1.0, "perm": None, "renum": {}, "dup": [], "spread": False, "mixorder": None,
-            "selfmix": None, "mixscale": 1.0}
+            "selfmix": None, "mixscale": 1.0, "rebatch": {}, "assoc": None}
 
 
 def fnum(x):
@@ -246,7 +255,9 @@ class Renderer:
             for s in sols:
                 du = V["defunits"].get(s["n"], "mol/kgw")
                 L = ["SOLUTION %d" % rn("solution", s["n"]), "    temp %s" % fnum(s["temp"]), "    pH %s" % fnum(s["pH"]), "    pe %s" % fnum(s["pe"]),
-                     "    units %s" % du, "    -water %s" % fnum(s["water"] * k)]
+                     "    units %s" % du, "    -water %s" % fnum(s["water"] * k * V.get("rebatch", {}).get(s["n"], 1.0))]
+                if s.get("pressure"):
+                    L.append("    pressure %s" % fnum(s["pressure"]))
                 cl = []
                 descs = []
                 for e, m in s["comps"]:
@@ -261,10 +272,16 @@ class Renderer:
                     prng.shuffle(head)
                     # units must precede nothing in particular; keep any order of the option lines
                     L = [L[0]] + head
-                lines_desc[s["n"]] = {"water": float(fnum(s["water"] * k)), "defunit": du, "comps": descs}
+                lines_desc[s["n"]] = {"water": float(fnum(s["water"] * k * V.get("rebatch", {}).get(s["n"], 1.0))), "defunit": du, "comps": descs}
                 blocks.append("\n".join(L + cl))
+        chained = None
         for b in S["blocks"]:
-            blocks.append(self.render_block(b, V, rn, k, prng))
+            rb_ = self.render_block(b, V, rn, k, prng)
+            if isinstance(rb_, tuple):
+                chained = rb_
+                blocks.append(rb_[0])
+            else:
+                blocks.append(rb_)
         for i in V["dup"]:
             if i < len(blocks):
                 blocks.append(blocks[i])
@@ -280,6 +297,8 @@ class Renderer:
         if prng:
             prng.shuffle(use)
         out += use
+        if chained:
+            out += ["SAVE solution %d" % chained[1], "END", chained[2]] + use
         out.append("END")
         return "\n".join(out) + "\n", lines_desc
 
@@ -290,8 +309,9 @@ class Renderer:
                 if e not in elems:
                     elems.append(e)
         du = V["defunits"].get("spread", "mol/kgw")
-        head = ["Number", "temp", "pH", "pe", "water"] + elems
-        sub = ["", "", "", "", ""]
+        withp = any(s.get("pressure") for s in sols)
+        head = ["Number", "temp", "pH", "pe", "water"] + (["pressure"] if withp else []) + elems
+        sub = ["", "", "", "", ""] + ([""] if withp else [])
         colspec = {}
         for e in elems:
             sp = V["units"].get(("spread", e), {})
@@ -308,7 +328,10 @@ class Renderer:
         if any(sub):
             L.append("\t".join(sub))
         for s in sols:
-            row = [str(rn("solution", s["n"])), fnum(s["temp"]), fnum(s["pH"]), fnum(s["pe"]), fnum(s["water"] * k)]
+            wv = s["water"] * k * V.get("rebatch", {}).get(s["n"], 1.0)
+            row = [str(rn("solution", s["n"])), fnum(s["temp"]), fnum(s["pH"]), fnum(s["pe"]), fnum(wv)]
+            if withp:
+                row.append(fnum(s.get("pressure") or 1.0))
             cm = dict((e, m) for e, m in s["comps"])
             descs = []
             for e in elems:
@@ -318,7 +341,7 @@ class Renderer:
                     descs.append(d)
                 else:
                     row.append("")
-            lines_desc[s["n"]] = {"water": float(fnum(s["water"] * k)), "defunit": du, "comps": descs}
+            lines_desc[s["n"]] = {"water": float(fnum(wv)), "defunit": du, "comps": descs}
             L.append("\t".join(row))
         return "\n".join(L)
 
@@ -332,7 +355,15 @@ class Renderer:
             if prng:
                 prng.shuffle(items)
             L = ["MIX %d" % n]
-            items = [[sn, f * V.get("mixscale", 1.0)] for sn, f in items]
+            items = [[sn, f * V.get("mixscale", 1.0) / V.get("rebatch", {}).get(sn, 1.0)] for sn, f in items]
+            if V.get("assoc") and len(items) >= 3:
+                # the same mixture made in two steps: first `inner` (saved as solution `tmp`), then tmp + the rest
+                inner, tmp = V["assoc"]
+                first = [it for it in items if it[0] in inner]
+                rest = [it for it in items if it[0] not in inner]
+                L1 = ["MIX %d" % n] + ["    %d %s" % (rn("solution", sn), fnum(f)) for sn, f in first]
+                L2 = ["MIX %d" % n, "    %d 1.0" % tmp] + ["    %d %s" % (rn("solution", sn), fnum(f)) for sn, f in rest]
+                return ("\n".join(L1), tmp, "\n".join(L2))
             for sn, f in items:
                 if V["selfmix"] and V["selfmix"][0] == sn:
                     # the same solution listed twice, fractions adding up to the original one
@@ -469,7 +500,7 @@ def pair_ok(k, a, b):
 # ----------------------------------------------------------------------------- the check
 
 FAMILIES = ["speciation", "batch", "exchange", "surface", "gas", "kinetics", "mix"]
-TRANSFORMS = ["units", "water", "perm", "renum", "dup", "spread", "mixorder", "selfmix", "mixscale", "combo"]
+TRANSFORMS = ["units", "water", "perm", "renum", "dup", "spread", "mixorder", "selfmix", "mixscale", "rebatch", "mixassoc", "combo"]
 
 UNITS = ["mol/kgw", "mmol/kgw", "umol/kgw", "g/kgw", "mg/kgw", "ug/kgw"]
 UNIT_SPELL = {"mol/kgw": ["mol/kgw", "Mol/kgw", "moles/kgw"], "mmol/kgw": ["mmol/kgw", "mMol/kgw", "millimol/kgw"], "umol/kgw": ["umol/kgw", "micromol/kgw"],
@@ -534,6 +565,20 @@ def make_variant(rng, S, t):
         elif t == "mixscale":
             # all mixing fractions times a common factor: the mixture is the same system, c times as much of it
             V["mixscale"] = rnd_round(rng, logu(rng, 0.2, 5.0))
+        elif t == "rebatch":
+            # one or more end members described as a batch c times as large and mixed at 1/c of the fraction:
+            # the same amount of the same water goes into the mixture
+            mixes = [b for b in S["blocks"] if b["kind"] == "MIX"]
+            if mixes:
+                sns = [it[0] for it in mixes[0]["items"]]
+                for sn in rng.sample(sns, rng.randint(1, max(1, len(sns) - 1))):
+                    V["rebatch"][sn] = rng.choice([0.1, 0.25, 0.5, 2.0, 4.0, 10.0, rnd_round(rng, logu(rng, 0.05, 20.0))])
+        elif t == "mixassoc":
+            # (a + b) + c in two steps through SAVE instead of a + b + c in one MIX block
+            mixes = [b for b in S["blocks"] if b["kind"] == "MIX"]
+            if mixes and len(mixes[0]["items"]) >= 3:
+                sns = [it[0] for it in mixes[0]["items"]]
+                V["assoc"] = (set(rng.sample(sns, 2)), 90 + rng.randint(0, 9))
         elif t == "selfmix":
             mixes = [b for b in S["blocks"] if b["kind"] == "MIX"]
             if mixes:
@@ -542,7 +587,7 @@ def make_variant(rng, S, t):
 
 
 def applicable(family, t):
-    if t in ("mixorder", "selfmix", "mixscale"):
+    if t in ("mixorder", "selfmix", "mixscale", "rebatch", "mixassoc"):
         return family == "mix"
     if t == "spread":
         return family in ("speciation", "batch", "mix", "exchange")
@@ -577,7 +622,7 @@ def compare(S, V, rb, rv):
             if math.isnan(a) or math.isnan(b) or math.isinf(a) or math.isinf(b):
                 cells.append((key, h, "nan", 1.0, 0.0, 1.0, a == b))
                 continue
-            kk = (k * (V.get("mixscale", 1.0) if key[0] == "react" else 1.0)) if cl in ("ext", "phase") else 1.0
+            kk = (k * (V.get("mixscale", 1.0) if key[0] == "react" else V.get("rebatch", {}).get(key[1], 1.0))) if cl in ("ext", "phase") else 1.0
             cells.append((key, h, cl, kk, a, b, cell_ok(cl, kk, a, b)))
     return cells
 
@@ -818,7 +863,7 @@ def run(ctx):
         what = "%s base, transformation %s (k=%r, max rel %.2e): %d observable(s) differ beyond 1e-8 relative, e.g. row %s column %s: transformed %r vs base %r (x%r)" % (
             fam, t, V["k"], mx, len(cs), c[0], c[1], c[4], c[5], c[3])
         ctx.violation(key, what, {"kind": "input", "database": DBNAME, "input_text": texts[i][1], "base_input_text": texts[i][0], "family": fam,
-                                  "transform": t, "k": V["k"], "mixscale": V.get("mixscale", 1.0), "renum": [[kd, a, b] for (kd, a), b in V["renum"].items()],
+                                  "transform": t, "k": V["k"], "mixscale": V.get("mixscale", 1.0), "rebatch": [[a, b] for a, b in V.get("rebatch", {}).items()], "renum": [[kd, a, b] for (kd, a), b in V["renum"].items()],
                                   "observed": {"columns": heads[:20], "cell": [str(c[0]), c[1], c[4]]}, "expected": {"cell": [str(c[0]), c[1], c[5] * c[3]]}})
     T3 = time.time()
     mv = model_vs_code(ctx, R, descs, res)
@@ -854,6 +899,7 @@ def replay(ctx, R):
     V = base_variant()
     V["k"] = rp.get("k", 1.0)
     V["mixscale"] = rp.get("mixscale", 1.0)
+    V["rebatch"] = {a: b for a, b in rp.get("rebatch", [])}
     for kd, a, b in rp.get("renum", []):
         V["renum"][(kd, a)] = b
     rb, rv = res["b0"], res["v0"]
